@@ -65,6 +65,7 @@ SPLITS3 = [(3,), (2, 1), (1, 1, 1)]
 SPLITS4 = [(2, 2), (1, 3)]
 
 OBLIGATIONS = {
+    "track_built_from_copied_observations": "a collection holding a track and a span extracted from it, or a track closed with loop(add=True), valued afterwards",
     "grid_wider_than_256_cells": "a grid with more than 256 columns (5 x 4 extent, columns of 1/64) was summarised and probed with getCell",
     "second_feature_interleaved": "a second (unit) feature was requested between the maps of the first one and its count / sum per cell judged",
     "aggregates_in_reversed_order": "the same collection summarised with the aggregates requested in the reversed order (median first)",
@@ -128,7 +129,37 @@ def _track(variant, fixes, k):
     return t
 
 
-def _collection(variant, tracks):
+def _bare(variant, fixes, k):
+    t = Track()
+    t0 = alpha.t0(variant)
+    for i, (px, py, v) in enumerate(fixes):
+        x, y = alpha.xy(variant, px, py)
+        t.addObs(Obs(ENUCoords(x, y, 0.0), alpha.obstime(t0 + 10 * k + i)))
+    return t
+
+
+def _feat(t, variant, fixes):
+    t.createAnalyticalFeature("v", [_val(variant, f[2]) for f in fixes])
+    t.createAnalyticalFeature("w", [1.0] * len(fixes))
+    return t
+
+
+def _collection(variant, tracks, build="fresh"):
+    """build = "span": the third track is cut out of the second one (extractSpanTime over its whole duration: same
+    positions, its own observations) BEFORE either gets its feature values; "loop": the second track is closed with
+    loop(add=True) (its last fix is a copy of the first) before it gets its values.  The values handed to
+    createAnalyticalFeature are the ones listed in `tracks` in every case."""
+    if build == "span":
+        base = _bare(variant, tracks[1], 1)
+        t0 = alpha.t0(variant)
+        cut = base.extractSpanTime(alpha.obstime(t0 + 9), alpha.obstime(t0 + 10 + len(tracks[1])))
+        if cut.size() != len(tracks[2]):
+            raise RuntimeError("harness: the extracted span has %d fixes" % cut.size())
+        return TrackCollection([_track(variant, tracks[0], 0), _feat(base, variant, tracks[1]), _feat(cut, variant, tracks[2])])
+    if build == "loop":
+        base = _bare(variant, tracks[1][:-1], 1)
+        base.loop(add=True)
+        return TrackCollection([_track(variant, tracks[0], 0), _feat(base, variant, tracks[1])])
     return TrackCollection([_track(variant, f, k) for k, f in enumerate(tracks)])
 
 
@@ -327,7 +358,7 @@ def _oblige_grid(G, margin, ctx):
 # ---------------------------------------------------------------------------
 # the checks (shared by the enumeration and by --replay)
 # ---------------------------------------------------------------------------
-def check_summ(variant, tracks, res, margin, ctx, order="listed"):
+def check_summ(variant, tracks, res, margin, ctx, order="listed", build="fresh"):
     """summarize() of one collection on one grid with the six aggregates, requested in the listed or in the reversed
     order (between the two, every aggregate is computed before every other one once: an aggregate that consumed or
     altered the values collected in a cell would spoil the ones computed after it)."""
@@ -336,8 +367,11 @@ def check_summ(variant, tracks, res, margin, ctx, order="listed"):
     AGGS = list(reversed(_AGGS)) if order == "reversed" else list(_AGGS)
     if order == "reversed":
         ctx.oblige("aggregates_in_reversed_order")
+    if build != "fresh":
+        case["build"] = build
+        ctx.oblige("track_built_from_copied_observations")
     resolution = _res(variant, res)
-    col = _collection(variant, tracks)
+    col = _collection(variant, tracks, build)
     fixes = []
     for t in tracks:
         for (px, py, v) in t:
@@ -503,7 +537,7 @@ def check_cell(variant, res, margin, p, ctx, diag="std"):
 def replay(case, ctx):
     if case["op"] == "summ":
         check_summ(case["variant"], [[tuple(f) for f in t] for t in case["tracks"]], tuple(case["res"]), case["margin"], ctx,
-                   case.get("order", "listed"))
+                   case.get("order", "listed"), case.get("build", "fresh"))
     elif case["op"] == "cell":
         check_cell(case["variant"], tuple(case["res"]), case["margin"], tuple(case["p"]), ctx, case.get("diag", "std"))
 
@@ -568,6 +602,8 @@ def plan(tier, variant):
     for mi in range(len(MARGINS)):
         for xi in [None] + list(range(len(FINE_X))):
             shards.append({"kind": "fine", "mi": mi, "xi": xi, "tier": tier, "variant": variant})
+    for ri in range(len(RES)):
+        shards.append({"kind": "copies", "ri": ri, "tier": tier, "variant": variant})
     chunk = {"quick": 1500, "thorough": 4000}[tier]
     for fam in ("F1a", "F3", "F2", "F1b"):
         n = len(_family(fam, tier, variant))
@@ -588,6 +624,20 @@ def run_shard(shard, ctx):
                 nt = check_cell(v, res, margin, p, ctx)
                 ctx.case(bool(nt))
         ctx.sample({"getCell_on_grid": {"res": list(res), "margins": MARGINS}, "points": "quarter lattice 17x17 + 8 extent border points"})
+        return
+    if shard["kind"] == "copies":
+        res = RES[shard["ri"]]
+        vals = alpha.order(v, VALS_Q)
+        diag = [tuple(f) for f in DIAG]
+        (p, q) = P2
+        for margin in MARGINS:
+            for a, b, c in itertools.product(vals, repeat=3):
+                ctx.case(bool(check_summ(v, [diag, [(p[0], p[1], a), (q[0], q[1], b), (p[0], p[1], c)]], res, margin, ctx, "listed", "loop")))
+                for d in vals:
+                    ctx.case(bool(check_summ(v, [diag, [(p[0], p[1], a), (q[0], q[1], b)], [(p[0], p[1], c), (q[0], q[1], d)]],
+                                             res, margin, ctx, "reversed" if a != a else "listed", "span")))
+        ctx.sample({"copied_observation_families": ["track + span extracted from it", "track closed with loop(add=True)"],
+                    "res": list(res), "margins": MARGINS, "values": vals})
         return
     if shard["kind"] == "fine":
         margin = MARGINS[shard["mi"]]
